@@ -115,8 +115,11 @@ def gen(rng, tier, index):
                 o = "first"           # the reference stream is a finite prefix of an infinite one
             ops.append([o, rng.randrange(0, 3)] if o == "nth" else [o])
         consumers.append(ops)
+    # how each consumer reaches the shared head: directly, or through its OWN (lazy-seq head) wrapper -
+    # then the shared cells are realized by the wrapper's walk over nested lazy seqs, not by seq()
+    via = [rng.choice(["direct", "direct", "wrap"]) for _ in consumers] if rng.random() < 0.4 else ["direct"] * len(consumers)
     return {"n": n, "source": source, "cells": cells, "pipeline": pipeline, "consumers": consumers,
-            "faults": faults}
+            "faults": faults, "via": via}
 
 
 def shrink(workload):
@@ -125,6 +128,8 @@ def shrink(workload):
         for i in range(len(cons)):
             w = copy.deepcopy(workload)
             del w["consumers"][i]
+            if w.get("via"):
+                del w["via"][i]
             yield w
     for i, t in enumerate(cons):
         if len(t) > 1:
@@ -159,6 +164,12 @@ def shrink(workload):
         w = copy.deepcopy(workload)
         w["source"] = "lazy"
         yield w
+    if any(v == "wrap" for v in workload.get("via", [])):
+        for i, v in enumerate(workload["via"]):
+            if v == "wrap":
+                w = copy.deepcopy(workload)
+                w["via"][i] = "direct"
+                yield w
 
 
 def nontrivial(rec):
@@ -433,9 +444,12 @@ def run(workload, k):
 
     ops_log = []
 
+    via = workload.get("via") or ["direct"] * len(workload["consumers"])
+    heads = [head if v == "direct" else lseq.LazySeq(lambda: head) for v in via]
+
     def consumer(ci, script):
         def body():
-            cur = head          # the real cursor
+            cur = heads[ci]     # the real cursor
             c = 0               # reference cursor (index into Rf); len(Rf) = exhausted
             L = len(Rf)
             for oi, op in enumerate(script):
@@ -566,7 +580,7 @@ def run(workload, k):
 
 # ------------------------------------------------------------------ real-thread probe (driver side)
 
-PROBE_VARIANTS = [("first", 2), ("seq", 2), ("map", 2), ("iter", 3), ("count", 2), ("realized", 3)]
+PROBE_VARIANTS = [("first", 2), ("seq", 2), ("map", 2), ("iter", 3), ("count", 2), ("realized", 3), ("wrap", 2)]
 
 
 def _run_probe(variant, nthreads):
